@@ -146,7 +146,7 @@ fn main() {
         let res = std::panic::catch_unwind(move || bounded::run(&prop));
         let res = match res { Ok(r) => r, Err(e) => {
             let msg = e.downcast_ref::<String>().cloned().or_else(|| e.downcast_ref::<&str>().map(|s| s.to_string())).unwrap_or_default();
-            Some(bounded::Outcome { cases: 1, distinct: 2, fail: Some(format!("the real code PANICKED on an input of the family (it returns on the unchanged tree): {msg}")) }) } };
+            Some(bounded::Outcome { cases: 1, distinct: 2, fail: Some(format!("panic while running the family - in the real code, or in a harness expectation (an unwrap of a result that is Ok on the unchanged tree): {msg}")) }) } };
         match res {
             None => { println!("BOUNDED-NONE property={}", a[2]); std::process::exit(4); }
             Some(o) => {
